@@ -410,7 +410,7 @@ Qed.
 Theorem corr_implies_ok13 c : UM.corr c = true -> C13.ok c = true.
 Proof.
   unfold UM.corr, C13.ok. set (o := c_obs c). intros H.
-  assert (Hst : uo_stable o = true).
+  assert (Hst : uo_stable_m o = true).
   { apply andb_true_iff in H as [H0 _]. apply andb_true_iff in H0 as [H0 _]. apply andb_true_iff in H0 as [_ H0]. exact H0. }
   rewrite Hst. cbn [andb].
   destruct (c_in c) as [[m k t fs st cs u]|] eqn:Hcin; [|reflexivity].
